@@ -316,3 +316,24 @@ CHECKS["C03"] = {
         J("frontends", AGENT, "TestC03Frontends", {"shards": 4, "checks": 80}, {"shards": 16, "checks": 2000}, toolchain="go126"),
     ],
 }
+
+CHECKS["C04"] = {
+    "level": "exploration",
+    "engine": "E3 agent in-package",
+    "level_text": "Differential testing of every authentication frontend against store.Dir.Authenticate on the same directory: generated stores (1..4 users whose passwords contain bytes special to one transport: "
+                  "':' for basic-auth, JSON escapes / U+0000 / non-BMP for the API, '@' ',' '=' '+' for LDAP, 0x00-0xff and 255/256/257-byte values, leading/trailing whitespace) and probes with the right password and "
+                  "near-misses (trimmed, case-folded, cut at the special byte, cut at 256, NUL appended, another user's password, a user whose record produces an internal error). In-process handlers plus the "
+                  "built binary over a unix socket, HTTP, LDAP and the CLI (black-box job).",
+    "level_note": "Trusted: store.Dir.Authenticate as the reference verdict (its own meaning is C01/C02's job). Transport limits are respected and counted as exclusions: empty fields, ':' in basic-auth user names, "
+                  "non-UTF-8 in JSON, SASL fields over 256 bytes, NUL / leading '-' in CLI arguments.",
+    "technique": "differential property-based testing (rapid): frontend verdict vs library verdict on the same store",
+    "oracle": "accept signal of the frontend (SASL OK / HTTP 200 / LDAP result 0 / CLI exit 0) == store.Dir.Authenticate(name', password).ok with name' = name (LDAP: part before the first '@'); "
+              "authentication never changes the store; internal errors are denials",
+    "rule": "a case = one store + 2..14 probes. Non-trivial = expected accept with a password containing a transport-special byte, or expected reject for a near-miss; distinct = distinct "
+            "(frontend, probe kind, expected verdict, special flag)",
+    "assumptions": ["TLS variants of the listeners only wrap the same handlers and are not generated"],
+    "required_classes": {"all": ["probe:nontrivial", "probe:internal-error-must-deny", "frontend:ldap-bind", "frontend:basic-auth", "frontend:api-authenticate", "frontend:sasl-callback", "expected:true", "expected:false"]},
+    "jobs": [
+        J("inprocess", AGENT, "TestC04Frontends", {"shards": 8, "checks": 80}, {"shards": 16, "checks": 4000}, toolchain="go126"),
+    ],
+}
